@@ -12,7 +12,8 @@ import (
 )
 
 type CaseC04 struct {
-	Doc    *XElem `json:"doc"`
+	Doc     *XElem `json:"doc"`
+	GoEmpty bool   `json:"go_empty,omitempty"` // XmlGoEmptyElemSyntax for the encoders
 	Prefix string `json:"prefix"`
 	Ind    string `json:"ind"`
 }
@@ -25,6 +26,7 @@ func genC04(t *rapid.T) CaseC04 {
 	blanks := []string{"", " ", "  ", "\t", "    "}
 	c.Prefix = rapid.SampledFrom(blanks).Draw(t, "prefix")
 	c.Ind = rapid.SampledFrom(blanks).Draw(t, "ind")
+	c.GoEmpty = rapid.IntRange(0, 3).Draw(t, "goempty") == 0
 	return c
 }
 
@@ -75,6 +77,10 @@ func checkC04(c CaseC04, info *Info) *Failure {
 	}
 	defer resetOptions()
 	mxj.XMLEscapeChars(true)
+	if c.GoEmpty {
+		mxj.XmlGoEmptyElemSyntax()
+		info.Class("Go empty-element syntax")
+	}
 	doc := c.Doc.String()
 	want, err := rawTokens([]byte(doc))
 	if err != nil {
